@@ -17,7 +17,7 @@ def main(argv):
         timeout = int(argv[argv.index("--timeout") + 1])
     pats = [a for a in argv if not a.startswith("-") and a != dump and a != str(timeout)]
     C.load_all()
-    ids = [k for k in C.CONTRACTS if any(p in k for p in pats) and not C.CONTRACTS[k].trusted]
+    ids = [k for k in C.CONTRACTS if any(p in k for p in pats) and not C.CONTRACTS[k].trusted and not C.CONTRACTS[k].bounded_only]
     rc = 0
     for fid in ids:
         t0 = time.time()
